@@ -211,7 +211,9 @@ fn map_exits<K: Elem, V: Elem>(c: &mut Ctx, spec: &Spec, rng: &mut Rng) {
                 "clone_from_into_occupied" => {
                     let r = RECIPES[rng.usize_below(RECIPES.len())];
                     let tspec = Spec::random(rng, r);
+                    crate::ckalloc::set_current_id(5);
                     let mut t: MapC<K, V> = build(&tspec);
+                    crate::ckalloc::set_current_id(0);
                     t.0.clone_from(&m.0);
                     t.validate(&what);
                     drop(t);
@@ -304,7 +306,9 @@ fn set_exits<T: Elem>(c: &mut Ctx, spec: &Spec, rng: &mut Rng) {
                 "clone_from" => {
                     let r = RECIPES[rng.usize_below(RECIPES.len())];
                     let tspec = Spec::random(rng, r);
+                    crate::ckalloc::set_current_id(6);
                     let mut t: SetC<T> = build(&tspec);
+                    crate::ckalloc::set_current_id(0);
                     t.0.clone_from(&s.0);
                     drop(t);
                 }
